@@ -579,7 +579,8 @@ fn plan_for(t: usize, i: usize, k: usize, panic: bool) -> Vec<Act> {
 }
 
 /// error payloads a user strategy might return: "unchanged" must hold for unusual contents too
-/// (empty, long, braces as in format strings, quotes, newlines, non-ASCII, leading/trailing blanks)
+/// (empty, long, braces as in format strings, quotes, newlines, NUL, non-ASCII, leading/trailing
+/// blanks, the shipped strategies' own wording)
 pub fn token_for(t: usize, i: usize, k: usize) -> String {
     let base = format!("tok-t{t}-o{i}-k{k}");
     match (t * 31 + i * 7 + k) % 9 {
@@ -587,9 +588,12 @@ pub fn token_for(t: usize, i: usize, k: usize) -> String {
         1 => format!("{base} {}", "x".repeat(300)),
         2 => format!("{base} {{}} {{0}} {{:?}} %s %d"),
         3 => format!("{base} \"quoted\" 'single' \\ back\\slash"),
-        4 => format!("{base}\nsecond line\r\n\ttabbed"),
+        4 => format!("{base}\nsecond line\r\n\ttabbed\0after-nul"),
         5 => format!("{base} \u{e4}\u{f6}\u{fc} \u{4e2d}\u{6587} \u{1f600}"),
         6 => format!("  {base}  "),
+        // worded like the shipped strategies' own out-of-range errors (a strategy written from
+        // linear.rs as a template): still the strategy's error, still to be handed on as it is
+        7 => format!("{base}: x = {k}.5 is not in range"),
         _ => base,
     }
 }
@@ -654,6 +658,33 @@ pub fn run_block_c18(verif_seed: u64, block: u64, n_bases: usize, opts: &BlockOp
                 miri: None,
                 no_nest: false,
                 violation: Violation { property: "C18".into(), kind: "build-invariant".into(), detail: format!("{label}: {detail}"), thread: 0, op: 0, step: 0 },
+            });
+        }
+    }
+    // --- once per block: accessors and targets over data with degenerate strides ----------------
+    {
+        let (n, viol) = crate::degen::degenerate_stride_cases();
+        let mut c = Counters(std::mem::take(&mut sum.counters));
+        c.add("accessor.degenerate_stride_cases", n);
+        c.add("accessor.degenerate_stride_callbacks", crate::degen::callbacks());
+        sum.counters = c.0;
+        if let Some(detail) = viol {
+            sum.violations.push(RunFile {
+                format: "dst-replay v1".into(),
+                property: "C18".into(),
+                kind: "callback-invariant".into(),
+                engine: "baton".into(),
+                verif_seed,
+                block,
+                run: 0,
+                variant: "cases:degenerate-strides".into(),
+                prefix_runs: 0,
+                flaky: false,
+                spec: None,
+                build_case: None,
+                miri: None,
+                no_nest: false,
+                violation: Violation { property: "C18".into(), kind: "callback-invariant".into(), detail, thread: 0, op: 0, step: 0 },
             });
         }
     }
